@@ -74,8 +74,16 @@ def run(ctx):
     if not exe:
         return
     runner = SimRunner(ctx, exe)
-    nscen = ctx.n(250, 2000)
-    nsched = ctx.n(60, 500)
+    if getattr(ctx, "replay_path", None):
+        def kinds_of(obj, s):
+            kinds = [k for k, _ in judge(dict(name="replay"), s)]
+            if not kinds and obj.get("what") in ("awaiter", "bystander", "containment") and "(err StackUnderflow" in s.line:
+                kinds.append(obj["what"])
+            return kinds
+        simlib.replay(ctx, runner, kinds_of)
+        return
+    nscen = ctx.n(200, 2000)
+    nsched = ctx.n(50, 500)
     scenarios = []
     sites = simlib.FAIL_SITES
     whens = ["before", "during", "after"]
